@@ -85,9 +85,14 @@ def diagnose(pid, spec, case, out, v):     # pylint: disable=unused-argument,too
                 return 'hoist:kind-imported-at-module-level-not-imported-where-hoisted'
             if 'imports:module-level' in feats and 'pool' in fam:
                 return 'pool:kind-imported-at-module-level-not-imported-in-driver'
-            if 'rawstack' in fam and miss[0] == 'driver_mod.F90':
+            # files are compiled in dependency order and the build stops at the first file that fails: a kind missing
+            # in a *later* file (the driver) was never seen by the compiler and is not what was observed
+            failed = re.match(r'\s*fc: ([\w.]+):', det)
+            seen = failed is None or failed.group(1) == miss[0]
+            if 'rawstack' in fam and miss[0] == 'driver_mod.F90' and seen:
                 return 'rawstack:kind-of-kernel-temporaries-not-imported-in-driver'
-            return f'{fam}:build:kind-parameter-not-imported'
+            if seen:
+                return f'{fam}:build:kind-parameter-not-imported'
 
     # -- temporaries declared with a literal kind: analysis does ``k.name in import_map``
     if raw == 'exc:AttributeError@hoist_variables.transform_subroutine' and "'IntLiteral' object has no attribute" in det:
